@@ -63,7 +63,7 @@ theorem dep_c14_end {cfg : Cfg} {A2 X : A} {s2 : State} (hs : SimM cfg A2 s2) (a
     unfold dowed at hamU
     obtain ⟨hamem, hc⟩ := List.mem_filter.mp hamU
     simp only [Bool.and_eq_true, Bool.not_eq_true'] at hc
-    obtain ⟨⟨⟨⟨haal, hasb⟩, hnl⟩, hnw⟩, hanc⟩ := hc
+    obtain ⟨⟨⟨⟨⟨haal, hasb⟩, hnl⟩, hnw⟩, _⟩, hanc⟩ := hc
     obtain ⟨_, hal, mm, hmm, hsm⟩ := sim_entry hs (stays_of_not_closed evs hXm hamem hanc) haal
     refine ⟨mm, hmm, ao _ _ hmm, by rw [← hsm.modId]; exact hamd', by rw [← hsm.isLogger]; exact hnl, ?_,
       sim_sub hs hmm hsm _ hasb⟩
